@@ -449,7 +449,7 @@ class Case:
 
 
 NAME_POOL = ["f0", "f1", "f2", "f3", "f4", "f5", "f6", "f7", "get_value", "_init", "Helper", "x", "a_b_c", "fn9z",
-             "memcpy_", "L1"]
+             "memcpy_", "L1", "f10", "x2", "f", "get_value_2", "helper"]          # incl. names that are prefixes of others
 
 
 def pick_names(rng, n):
